@@ -38,6 +38,10 @@ CHECKS = {
    text="Every spec of U_2 wrapped as a scope (all kinds, units, enums, defaults, presence rules, disabled properties, nested scopes, recursive references) is described with SelfSerialize, rebuilt with UnserializeScope directly, after a CBOR round trip and after a YAML round trip, and described again: the descriptions must be identical and the rebuilt schema must accept/reject every raw value of V(spec) like the original and (map-based schemas) unserialize it to the same value. Three whole plugin schemas with several outputs, signal handlers and emitters are rebuilt through UnserializeSchema and through a real hello message read by Client.ReadSchema, with the same comparison for every input, output and signal data scope.",
    note="Trusted: value generators and structural equality of harness/ukit; descriptions are compared after CBOR normalisation; schemas with foreign-namespace references are excluded.",
    technique="exhaustive enumeration of a bounded schema universe x three transports with a fixed-point and differential-behaviour oracle", design="DESIGN.md §7 C09"),
+ "C10": dict(level="fault_enumeration", engine="U",
+   text="Every single structural mutation at every node of ~18 base self-descriptions (references under properties/lists/maps/one-of, recursive objects, nested scopes with colliding ids, struct-mapped objects, all one-of flavours, units, patterns, enums, defaults, presence rules) and of a whole plugin schema: value retyped to 12 alien values, key replaced, entry deleted or duplicated, id/root/namespace/discriminator re-pointed, inlining flag flipped, default made unparsable, pattern made invalid, type_id replaced; plus ~3000 grammar-free trees. Each is given to UnserializeScope / UnserializeSchema / Client.ReadSchema (real hello bytes); the result must be an error or a schema that survives the total-operation harness (SelfSerialize, ValidateReferences, four operations on valid values, hostile values one level down and at top level). Fatal errors and hangs are attributed to the mutant by the worker supervisor.",
+   note="Trusted: the mutation generator over CBOR-normalised descriptions; single mutations only.",
+   technique="exhaustive single-fault (mutation) enumeration over every node of bounded schema descriptions, each followed by bounded exhaustive use of the returned schema", design="DESIGN.md §7 C10"),
  "C12": dict(level="model_checking", engine="C+U",
    text="(a) schema/ is compiled with every range-over-map and reflect MapKeys routed through the map-order seam; every (schema of U_2 that ranges over a map, operation, argument) is executed under the sorted order and under every single (thorough: every pair of) deviating iteration order(s), all permutations each; accept/reject and the returned value must be identical. (b) the argument's deep snapshot is compared before/after every call. (c) explicit-state BFS over call histories (depth 3, thorough 4, ~9 calls per schema incl. erroring, default-filling and unit-parsing calls) on one instance: states are deep dumps incl. unexported caches, and every reached instance must equal a fresh one on self-description and a probe set.",
    note="Trusted: maporder rewrite, DeepDump/Snapshot, the probe set; recursive scopes are not used as schema arguments here (C15 reports their non-termination).",
